@@ -15,7 +15,7 @@ TRUSTED = [
 ]
 
 
-FREE_ROUNDS = {"C09": (150, 1500), "C12": (150, 1500)}   # family -> (quick, thorough) rounds of free-running stress
+FREE_ROUNDS = {"C09": (150, 1500), "C12": (150, 1500), "C11": (40, 400), "C06": (60, 600)}   # family -> (quick, thorough) rounds of free-running stress
 
 
 def z(n):
@@ -35,6 +35,8 @@ def fail_coq(f):
         return "NoFail"
     if f["kind"] == "modeq":
         return "(FailModEq %s %s)" % (z(f.get("m", 0)), z(f.get("r", 0)))
+    if f["kind"] == "ge":
+        return "(FailGe %s)" % z(f.get("m", 0))
     return "(FailIn %s)" % vlib.zlist(f.get("xs") or [])
 
 
